@@ -81,3 +81,11 @@ Definition unmarshal_text (m_stringToLevel : list (bytes * Z)) (level : Z) (text
   (None, level, tr_).
 Definition translated_unmarshal_text := true.
 
+(* Level.MarshalText  (returns (text, err): the name in levelToString, an error for a level without one) *)
+Definition marshal_text (m_levelToString : list (Z * bytes)) (level : Z) : bytes * option unit :=
+  match lookupZ m_levelToString level with
+    | Some str => (str, None)
+    | None => ((@nil byte), (Some tt))
+    end.
+Definition translated_marshal_text := true.
+
